@@ -23,6 +23,7 @@ type step struct {
 	Sconn []int    `json:"sconn"`
 	Dpc   []string `json:"dpc"`
 	Hasdb []bool   `json:"hasdb"`
+	Nconn []int    `json:"nconn"` // registered connections per daemon
 }
 
 type behaviour struct {
@@ -251,8 +252,20 @@ func (r *replayer) step(st *step) {
 			r.fail("%s: closing the client failed: %v", a.name(), err)
 		}
 	case "ConnDone":
+		d := r.daemon(st.D)
 		if st.R == "exit" {
-			r.expect(r.daemon(st.D), "daemon.before-remove", -1)
+			r.expect(d, "daemon.before-remove", -1)
+		} else {
+			// the daemon goes on serving its other clients; wait until it has handled this disconnect,
+			// so that the model's order of connects and disconnects is the order the daemon sees
+			x, err := w.awaitConns(d, st.Nconn[st.D-1])
+			if err != nil {
+				r.infra(err)
+			}
+			if x != nil {
+				r.pos[d] = *x
+				r.fail("d%d left its loop (%s) after s%d disconnected, the model keeps it serving its %d connected client(s)", st.D, x.Point, st.S, st.Nconn[st.D-1])
+			}
 		}
 	case "Listen":
 		d := r.daemon(st.D)
@@ -341,7 +354,7 @@ func (r *replayer) observe(st *step) {
 	if sock != st.Sock {
 		r.fail("after %s(s%d,d%d): the socket path names inode %s, the model says %s", st.A, st.S, st.D, inoName(sock), inoName(st.Sock))
 	}
-	if r.b.Kind == "term" && st == &r.b.Steps[len(r.b.Steps)-1] {
+	if (r.b.Kind == "term" || r.b.Kind == "sess") && st == &r.b.Steps[len(r.b.Steps)-1] {
 		// a terminal state of the model: nobody may have moved beyond the point the model left it at
 		w.mu.Lock()
 		var all []*actor
